@@ -171,6 +171,12 @@ fn run_inner(op: &str, a: &[Arg]) -> String {
         let args: Vec<String> = a.iter().map(|x| xs(x).to_string()).collect();
         return crate::laws::run_law(op, &args);
     }
+    if let Some(rest) = op.strip_prefix("typed.") {
+        return crate::typed::run(rest, a);
+    }
+    if op == "render.typed" {
+        return crate::typed::render(a);
+    }
     match op {
         // ---- conversions
         "conv.ET" => match f(&a[0]) {
